@@ -86,10 +86,12 @@ def gen_case(r, k, tier):
     kern = KERNELS[k % len(KERNELS)]
     mean = MEANS[(k // len(KERNELS)) % 3]
     err_kind = ERRS[(k + k // 21) % len(ERRS)]
-    n = [2, 3, 4, 3, 4, 5, 6, 4, 3, 7][k % 10]
-    if tier == "quick" and n > 6:
-        n = 5
-    d = r.choice([1, 1, 2, 2, 3])
+    if tier == "quick":     # vm_compute on exact rationals: cost grows like n^5 * (number of hyper-parameters)
+        n = [2, 3, 4, 3, 4, 3, 5, 4, 3, 4][k % 10]
+        d = r.choice([1, 1, 2, 2, 3]) if n <= 3 else r.choice([1, 1, 2])
+    else:
+        n = [2, 3, 4, 3, 4, 5, 6, 4, 3, 5][k % 10]
+        d = r.choice([1, 1, 2, 2, 3])
     if MX.kernel_has(kern, "CP") and n < 3:
         n = 3
     while True:
@@ -172,8 +174,10 @@ def build(case, keep=None, hyperpars=None):
 
 
 def refit_supported(case):
+    """Diagonal observation noise, and at least two points left after removing one (GpRegressor squeezes a
+    single data value to a 0-d array and rejects it)."""
     e = case["err"]
-    return not (e["kind"] == "y_cov" and not e.get("diag"))
+    return case["n"] >= 3 and not (e["kind"] == "y_cov" and not e.get("diag"))
 
 
 def refit(case, gp_full, A):
@@ -671,7 +675,7 @@ def run(rep: C.Report, tier: str) -> int:
             "coq-interval reflexive interval evaluator (score-value goals)",
             "Matrix/ListOps.v (executable matrix instance; inverse verified at run time)"],
         rule="configurations walk kernel (SE, RQ, SE+WN, RQ+WN, SE+RQ, CP(SE,SE), SE+SE+WN) x mean (3) x errors "
-             "(y_err, none, diagonal y_cov, full y_cov); n 2..6 (7 thorough), d 1..3; theta random, resampled until "
+             "(y_err, none, diagonal y_cov, full y_cov); n 2..5 (6 thorough), d 1..3; theta random, resampled until "
              "cond(K_xx+S) <= 1e4; score-value goals on the first cases with n <= 4; optimiser runs: 6 (quick) / 8 "
              "seeded real runs (L-BFGS-B multistart with ML and LOO criteria, differential evolution); every case "
              "non-trivial; distinct = distinct configurations")
